@@ -44,11 +44,40 @@ def findById (fault : Fault) (σ : StoreId) (c : Cnt) (db : Db) (id : String) : 
         let c := { c with fillC := c.fillC + 1, fillP := c.fillP + 1 }
         if fault = .load .P c.fillP ∨ fault = .load .C c.fillC then (c, true, none)
         else (c, false, some (.child id e.f r))
+    | .D =>
+      -- the second child store's strategy is not instrumented itself; it loads the parent part through
+      -- the parent store's LoadEntity, which is
+      match e.child2 with
+      | none => (c, false, none)
+      | some g =>
+        let c := { c with fillP := c.fillP + 1 }
+        if fault = .load .P c.fillP then (c, true, none)
+        else (c, false, some (.child2 id e.f g))
 
-/-- PersistEntity into the entity bucket: (counters, error recorded in the bucket's holder).
-    A role whose list key (type byte + value) exceeds bbolt's key size is refused by `Put`. -/
+/-- a map key (or the name of a nested bucket) bbolt refuses: empty or above its key size -/
+def badKey : Seg → Bool
+  | .key k => k = "" || k.utf8ByteSize > maxKeySize
+  | .idx _ => false
+
+/-- ctx.SetMap("tags", …) = TypedBucket.PutMap with nesting allowed: setMarshaled has no case for the
+    value's type ("unsupported type … in map" — wherever the value sits: directly in the map, in a list,
+    in a list of a nested map; the error travels up through `bucket.Err = listBucket.Err`), or bbolt
+    refuses a key.  (Go iterates the map in random order; a value with both defects is outside the
+    generated universe — the model reports the unsupported type.) -/
+def tagsErr (tags : List TagEntry) : Option Err :=
+  if tags.any (fun e => e.leaf.isUnsupported) then some .unsupported
+  else if tags.any (fun e => e.path.any badKey) then some .key
+  else none
+
+/-- what the typed-bucket setters called by the parent strategy's PersistEntity record for the VALUE of
+    the entity (no injection): name, ref, roles — a role whose list key (type byte + value) exceeds
+    bbolt's key size is refused by `Put` — then tags; the first error wins (ProceedWithSet) -/
+def valueErr (f : PFields) : Option Err :=
+  (if f.roles.any (fun r => r.utf8ByteSize + 1 > maxKeySize) then some Err.key else none).or (tagsErr f.tags)
+
+/-- PersistEntity into the entity bucket: (counters, error recorded in the bucket's holder). -/
 def persist (fault : Fault) (σ : StoreId) (c : Cnt) (f : PFields) : Cnt × Option Err :=
-  let keyErr : Option Err := if f.roles.any (fun r => r.utf8ByteSize + 1 > maxKeySize) then some .key else none
+  let keyErr : Option Err := valueErr f
   match σ with
   | .P =>
     let c := { c with persP := c.persP + 1 }
@@ -56,6 +85,9 @@ def persist (fault : Fault) (σ : StoreId) (c : Cnt) (f : PFields) : Cnt × Opti
   | .C =>
     let c := { c with persC := c.persC + 1, persP := c.persP + 1 }
     (c, keyErr.or (if fault = .persist .P c.persP ∨ fault = .persist .C c.persC then some .persist else none))
+  | .D =>
+    let c := { c with persP := c.persP + 1 }
+    (c, keyErr.or (if fault = .persist .P c.persP then some .persist else none))
 
 def refBytes (r : Option String) : String := r.getD ""
 
@@ -126,8 +158,9 @@ def raiseOpt (st : TxSt) : Option Err → TxSt
     `store.newIndexingContext(isCreate, ctx, id, holder)` of store σ.  The context of a child store is
     chained to a context of the parent store with the SAME holder; the parent's context runs first;
     each level runs its constraints only `if !ctx.ErrHolder.HasError()`.  Level P: the built-in
-    indexes (what they record is `builtin`), then P's custom constraints; level C: C's custom
-    constraints (C has no index of its own).  Returns the state and the holder. -/
+    indexes (what they record is `builtin`), then P's custom constraints; level of a child store (C
+    or D): its custom constraints (the child stores have no index of their own).  Returns the state and
+    the holder. -/
 def ixStage (env : Env) (σ : StoreId) (stage : Stage) (id : String) (isCreate : Bool)
     (builtin : Option Err) (h : Option Err) (st : TxSt) : TxSt × Option Err :=
   let p : TxSt × Option Err :=
@@ -136,10 +169,10 @@ def ixStage (env : Env) (σ : StoreId) (stage : Stage) (id : String) (isCreate :
     | none => ixLoop .P stage id isCreate (indexed env.ixP) builtin (raiseOpt st builtin)
   match σ with
   | .P => p
-  | .C =>
+  | σ =>
     match p.2 with
     | some e => (p.1, some e)
-    | none => ixLoop .C stage id isCreate (indexed env.ixC) none p.1
+    | none => ixLoop σ stage id isCreate (indexed (env.ix σ)) none p.1
 
 /-- EntityChangeState.processPreCommit -/
 def preCommitLoop (t : CrudReturns) (fl : Flow) : List (Nat × Reg) → TxSt → TxSt × Option Err
@@ -177,7 +210,7 @@ def parentFlow (fl : Flow) : Flow :=
 def fireParentEvent (env : Env) (fl : Flow) (st : TxSt) : TxSt × Option Err :=
   match fl.store with
   | .P => (st, none)
-  | .C =>
+  | _ =>
     let r := fireEvents env (parentFlow fl) st
     match r.2 with
     | none => r
@@ -228,10 +261,13 @@ def finishWrite (env : Env) (fault : Fault) (rLoad rParent rOwn : Ret) (finalHol
       | some r => (oe.1, r)
       | none => (oe.1, if finalHolder then holderRes holder else .ok)
 
-/-- the entity written by a create / update through store σ (the child store writes the parent
-    fields through the parent's persist context and its own rank; the parent store leaves child data alone) -/
+/-- the entity written by a create / update through store σ (a child store writes the parent fields
+    through the parent's persist context and its own rank / grade; every store leaves the data of the
+    other stores alone) -/
 def writtenEnt (σ : StoreId) (db : Db) (id : String) (f : PFields) (rank : String) : Ent :=
-  { f := f.norm, child := match σ with | .P => (db.get id).bind (·.child) | .C => some rank }
+  { f := f.norm,
+    child := match σ with | .C => some rank | _ => (db.get id).bind (·.child),
+    child2 := match σ with | .D => some rank | _ => (db.get id).bind (·.child2) }
 
 /-- the parent fields a create replaces: those of an existing plain parent entity, when child data is
     created over it through the child store (legal: a child store only looks at its own data for
@@ -239,7 +275,7 @@ def writtenEnt (σ : StoreId) (db : Db) (id : String) (f : PFields) (rank : Stri
 def createOld (σ : StoreId) (db : Db) (id : String) : Option PFields :=
   match σ with
   | .P => none
-  | .C => (db.get id).map (·.f)
+  | _ => (db.get id).map (·.f)
 
 /-- BaseStore.Create from PersistEntity on, when the holder is still empty: the writes, `if
     bucket.HasError()`, ProcessAfterUpdate, loadFinalState, events, final return.  `old` = the parent
@@ -288,7 +324,7 @@ def create (env : Env) (fault : Fault) (σ : StoreId) (id : String) (f : PFields
     -- parent store's level only, IsCreate = true, the holder is the new bucket of the child path)
     let bu : TxSt × Option Err :=
       if old.isSome then ixStage env .P .beforeUpdate id true none none st else (st, none)
-    let h0 : Option Err := if σ = .C ∧ env.t.persistSharesHolder = false then none else bu.2
+    let h0 : Option Err := if σ ≠ .P ∧ env.t.persistSharesHolder = false then none else bu.2
     match h0 with
     | some e =>
       -- PersistEntity: ProceedWithSet writes nothing while the holder has an error; the (empty) bucket
@@ -342,7 +378,7 @@ def updateLocal (env : Env) (fault : Fault) (σ : StoreId) (id : String) (f : PF
         let bu := ixStage env σ .beforeUpdate id false none none st
         let p := persist fault σ fd.1 f
         -- the child strategy persists the parent fields through ctx.GetParentContext()
-        let h0 : Option Err := if σ = .C ∧ env.t.persistSharesHolder = false then none else bu.2
+        let h0 : Option Err := if σ ≠ .P ∧ env.t.persistSharesHolder = false then none else bu.2
         match h0 with
         | some e =>
           -- PersistContext / TypedBucket.ProceedWithSet: nothing is written while the holder has an
@@ -357,13 +393,12 @@ def updateLocal (env : Env) (fault : Fault) (σ : StoreId) (id : String) (f : PF
           finishWrite env fault env.t.updateLoad env.t.updateParentEvent env.t.updateOwnEvent
             env.t.updateFinalHolder fl ix.2 p.1 ix.1
 
-/-- BaseStore.Update: the parent store first offers the update to its child-store strategy
-    (ChildStoreUpdateHandler: the mapper finds child data for the id and hands the update to the
-    child store with the parent fields copied in) -/
+/-- BaseStore.Update: the parent store first offers the update to its child-store strategies in
+    registration order (ChildStoreUpdateHandler: the mapper finds child data for the id and hands the
+    update to that child store with the parent fields copied in); the first one that says "handled" ends it -/
 def update (env : Env) (fault : Fault) (σ : StoreId) (id : String) (f : PFields) (rank : String)
     (st : TxSt) : TxSt × Res :=
   match σ with
-  | .C => updateLocal env fault .C id f rank st
   | .P =>
     match (st.db.get id).bind (·.child) with
     | some r =>
@@ -372,7 +407,16 @@ def update (env : Env) (fault : Fault) (σ : StoreId) (id : String) (f : PFields
       | .propagate => res
       | .returnNil => (res.1, .ok)
       | .ignore => updateLocal env fault .P id f rank res.1
-    | none => updateLocal env fault .P id f rank st
+    | none =>
+      match (st.db.get id).bind (·.child2) with
+      | some g =>
+        let res := updateLocal env fault .D id f g st
+        match env.t.updateDelegate with
+        | .propagate => res
+        | .returnNil => (res.1, .ok)
+        | .ignore => updateLocal env fault .P id f rank res.1
+      | none => updateLocal env fault .P id f rank st
+  | σ => updateLocal env fault σ id f rank st
 
 /-- BaseStore.processDeleteConstraints: (state, counters, flow, error) -/
 def processDeleteConstraints (env : Env) (fault : Fault) (σ : StoreId) (id : String) (c : Cnt)
@@ -422,7 +466,23 @@ def childFlowList (_err : Option Err) (fl : Option Flow) : List Flow :=
 def markedFlows (pfl : Flow) (childFlows : List Flow) : List Flow :=
   (if childFlows.isEmpty then pfl else { pfl with parentEvent := true }) :: childFlows
 
-/-- BaseStore.DeleteById on the parent store (with the single child-store strategy) -/
+/-- one round of DeleteById's `for _, handler := range store.childStoreStrategies`: HandleDelete (nil),
+    the child store's processDeleteConstraints, `if err != nil { return err } else if changeFlow != nil
+    { changeFlows = append(changeFlows, changeFlow); hasChildren = true }`.  Returns state, counters, an
+    early result, the flows to append. -/
+def deleteChildRound (env : Env) (fault : Fault) (σ : StoreId) (id : String) (c : Cnt) (st : TxSt) :
+    TxSt × Cnt × Option Res × List Flow :=
+  let ch := processDeleteConstraints env fault σ id c st
+  let after : Option Res :=
+    match ch.2.2.2 with
+    | none => none
+    | some e => match env.t.deleteChildConstraints.act e with
+      | .ret r => some r
+      | .cont => none
+  (ch.1, ch.2.1, after, childFlowList ch.2.2.2 ch.2.2.1)
+
+/-- BaseStore.DeleteById on the parent store: the child-store strategies in registration order (C, then
+    D), then the parent's own delete constraints -/
 def deleteParent (env : Env) (fault : Fault) (id : String) (c : Cnt) (st : TxSt) : TxSt × Cnt × Res :=
   let fd := findById fault .P c st.db id
   let afterFind : TxSt × Option Res :=
@@ -441,40 +501,37 @@ def deleteParent (env : Env) (fault : Fault) (id : String) (c : Cnt) (st : TxSt)
       | .ret r => (st.raise .notFound, fd.1, r)
       | .cont => (st.raise .notFound, fd.1, .ok)
     | some _ =>
-      -- child-store strategy: HandleDelete (nil), then the child's processDeleteConstraints
-      let ch := processDeleteConstraints env fault .C id fd.1 st
-      let afterChild : Option Res :=
-        match ch.2.2.2 with
-        | none => none
-        | some e => match env.t.deleteChildConstraints.act e with
-          | .ret r => some r
-          | .cont => none
-      match afterChild with
-      | some r => (ch.1, ch.2.1, r)
+      let r1 := deleteChildRound env fault .C id fd.1 st
+      match r1.2.2.1 with
+      | some r => (r1.1, r1.2.1, r)
       | none =>
-        let childFlows : List Flow := childFlowList ch.2.2.2 ch.2.2.1
-        let own := processDeleteConstraints env fault .P id ch.2.1 ch.1
-        let afterOwn : Option Res :=
-          match own.2.2.2 with
-          | none => none
-          | some e => match env.t.deleteOwnConstraints.act e with
-            | .ret r => some r
-            | .cont => none
-        match afterOwn with
-        | some r => (own.1, own.2.1, r)
+        let r2 := deleteChildRound env fault .D id r1.2.1 r1.1
+        match r2.2.2.1 with
+        | some r => (r2.1, r2.2.1, r)
         | none =>
-          match own.2.2.1 with
-          | none => (own.1, own.2.1, .ok)   -- changeFlows[0] is nil only if the entity vanished; not reachable
-          | some pfl =>
-            let st := { own.1 with db := own.1.db.del id }
-            let fa := fireAll env env.t.deleteFireEvents (markedFlows pfl childFlows) st
-            (fa.1, own.2.1, fa.2)
+          let childFlows : List Flow := r1.2.2.2 ++ r2.2.2.2
+          let own := processDeleteConstraints env fault .P id r2.2.1 r2.1
+          let afterOwn : Option Res :=
+            match own.2.2.2 with
+            | none => none
+            | some e => match env.t.deleteOwnConstraints.act e with
+              | .ret r => some r
+              | .cont => none
+          match afterOwn with
+          | some r => (own.1, own.2.1, r)
+          | none =>
+            match own.2.2.1 with
+            | none => (own.1, own.2.1, .ok)   -- changeFlows[0] is nil only if the entity vanished; not reachable
+            | some pfl =>
+              let st := { own.1 with db := own.1.db.del id }
+              let fa := fireAll env env.t.deleteFireEvents (markedFlows pfl childFlows) st
+              (fa.1, own.2.1, fa.2)
 
 /-- BaseStore.DeleteById: a child store hands the call to its parent -/
 def deleteById (env : Env) (fault : Fault) (σ : StoreId) (id : String) (c : Cnt) (st : TxSt) : TxSt × Cnt × Res :=
   match σ with
   | .P => deleteParent env fault id c st
-  | .C =>
+  | _ =>
     let r := deleteParent env fault id c st
     match env.t.deleteDelegate with
     | .propagate => r
